@@ -13,6 +13,9 @@ pub assume_specification<'a, K, V, S, A, Q> [std::collections::HashMap::<K, V, S
             None => !contains_borrowed_key(old(m)@, k) && final(m)@ == old(m)@,
         };
 
+//@begin const src/action/lookup.rs - ITERATIVE_PICK_NUM
+pub const ITERATIVE_PICK_NUM: usize = 3;
+//@end
 //@begin const src/action/lookup.rs - ANNOUNCE_PICK_NUM props=C03
 pub const ANNOUNCE_PICK_NUM: usize = 8;
 //@end
@@ -22,7 +25,7 @@ pub type Distance = InfoHash;
 //@begin type src/action/lookup.rs - type DistanceToBeat
 pub type DistanceToBeat = InfoHash;
 //@end
-//@begin type src/action/lookup.rs - struct TableLookup drop=tx,requested_nodes
+//@begin type src/action/lookup.rs - struct TableLookup
 pub struct TableLookup {
     pub table: Arc<Mutex<RoutingTable>>,
     pub this_node_id: NodeId,
@@ -34,7 +37,9 @@ pub struct TableLookup {
     pub will_announce: bool,
     pub active_lookups: HashMap<TransactionID, (DistanceToBeat, Timeout)>,
     pub announce_tokens: HashMap<NodeHandle, Vec<u8>>,
+    pub requested_nodes: HashSet<NodeHandle>,
     pub all_sorted_nodes: Vec<(Distance, NodeHandle, bool)>,
+    pub tx: mpsc::UnboundedSender<SocketAddr>,
 }
 //@end
 
@@ -69,7 +74,158 @@ pub proof fn lemma_send_count_step(o: Seq<Ev>, m: Seq<Ev>, f: Seq<Ev>)
     }
 }
 
+
+/// the addresses handed to the search stream so far, in order
+pub open spec fn yields(ev: Seq<Ev>) -> Seq<SocketAddr>
+    decreases ev.len()
+{
+    if ev.len() == 0 { Seq::empty() } else {
+        let p = yields(ev.drop_last());
+        match ev.last() { Ev::Yield(a) => p.push(a), _ => p }
+    }
+}
+pub open spec fn no_replies(o: Seq<Ev>, f: Seq<Ev>) -> bool {
+    extends(o, f) && forall|i: int| o.len() <= i < f.len() ==> match #[trigger] f[i] { Ev::Send(m, _) => m.body is Request, Ev::TableAdd(_, _) => false, _ => true }
+}
+pub proof fn lemma_yields_push(o: Seq<Ev>, e: Ev)
+    ensures yields(o.push(e)) == (match e { Ev::Yield(a) => yields(o).push(a), _ => yields(o) })
+{
+    assert(o.push(e).drop_last() =~= o);
+}
+pub proof fn lemma_yields_quiet(o: Seq<Ev>, f: Seq<Ev>)
+    requires no_yield(o, f)
+    ensures yields(f) == yields(o)
+    decreases f.len() - o.len()
+{
+    if f.len() == o.len() { assert(f =~= o); } else {
+        let d = f.drop_last();
+        assert(no_yield(o, d));
+        lemma_yields_quiet(o, d);
+    }
+}
+/// ABSTRACTION (rule R-abs): lookup.rs:166-222, the choice of the next nodes to query (fold / pick_iterate_nodes / insert_sorted_node over
+/// generic iterators: outside Verus' subset).  ASSUMED frame: it reads requested_nodes and only writes all_sorted_nodes.
+#[verifier::external_body]
+pub fn vx_abs_pick_nodes(all_sorted_nodes: &mut Vec<(Distance, NodeHandle, bool)>, requested_nodes: &HashSet<NodeHandle>, nodes: Vec<NodeHandle>,
+                         dist_to_beat: DistanceToBeat, target_id: InfoHash) -> (r: (Option<[(NodeHandle, bool); ITERATIVE_PICK_NUM]>, DistanceToBeat))
+{ unimplemented!() }
+
 impl TableLookup {
+    // ASSUMED contracts (generic iterator parameter / iter_mut().filter(): outside Verus' subset): a request round only sends get_peers queries,
+    // schedules its own timeouts, marks nodes; it never yields, never touches the tokens, never schedules a table refresh
+    #[verifier::external_body]
+    pub fn start_request_round<'a, I>(&mut self, nodes: I, socket: &Socket, timer: &mut Timer<ScheduledTaskCheck>, Tracked(tr): Tracked<&mut Trace>)
+        where I: Iterator<Item = (&'a NodeHandle, DistanceToBeat)>
+        requires old(timer).wf()
+        ensures only_requests_and_yields(old(tr).ev, final(tr).ev), no_yield(old(tr).ev, final(tr).ev), no_new_refresh(*old(timer), *final(timer)),
+            final(self).announce_tokens == old(self).announce_tokens, final(self).will_announce == old(self).will_announce,
+            final(self).target_id == old(self).target_id, final(self).this_node_id == old(self).this_node_id, final(self).in_endgame == old(self).in_endgame,
+    { unimplemented!() }
+    #[verifier::external_body]
+    pub fn start_endgame_round(&mut self, socket: &Socket, timer: &mut Timer<ScheduledTaskCheck>, Tracked(tr): Tracked<&mut Trace>) -> (r: ActionStatus)
+        requires old(timer).wf()
+        ensures only_requests_and_yields(old(tr).ev, final(tr).ev), no_yield(old(tr).ev, final(tr).ev), no_new_refresh(*old(timer), *final(timer)),
+            final(self).announce_tokens == old(self).announce_tokens, final(self).will_announce == old(self).will_announce,
+            final(self).target_id == old(self).target_id, final(self).this_node_id == old(self).this_node_id,
+    { unimplemented!() }
+
+//@begin fn src/action/lookup.rs impl:TableLookup recv_response rules=R-deasync props=C03,C05
+    pub fn recv_response(
+        &mut self,
+        node: Node,
+        trans_id: &TransactionID,
+        msg: Response,
+        socket: &Socket,
+        timer: &mut Timer<ScheduledTaskCheck>,
+        Tracked(tr): Tracked<&mut Trace>,
+    ) -> (res: ActionStatus)
+        requires old(timer).wf(),
+        ensures
+            // C03: a response whose transaction id is not that of a still-outstanding query of this search changes nothing
+            !old(self).active_lookups@.contains_key(*trans_id) ==> final(tr).ev == old(tr).ev && final(self).announce_tokens@ == old(self).announce_tokens@
+                && final(self).active_lookups@ == old(self).active_lookups@ && *final(timer) == *old(timer), // @C03.unsolicited_response_changes_nothing
+            // C03: otherwise the stream receives exactly the values of this response, in order, and nothing else
+            old(self).active_lookups@.contains_key(*trans_id) ==> yields(final(tr).ev) == yields(old(tr).ev) + msg.values@, // @C03.yields_exactly_the_values_of_an_outstanding_query
+            // C03: the token is recorded under the responder's (id, address), replacing any older one
+            old(self).active_lookups@.contains_key(*trans_id) ==> final(self).announce_tokens@ == (if msg.token is Some { old(self).announce_tokens@.insert(node.handle, msg.token->0) } else { old(self).announce_tokens@ }), // @C03.latest_token_recorded_under_responder
+            no_replies(old(tr).ev, final(tr).ev), // @C05.responses_never_answered
+            no_new_refresh(*old(timer), *final(timer)),
+            final(self).will_announce == old(self).will_announce, final(self).target_id == old(self).target_id, final(self).this_node_id == old(self).this_node_id,
+    {
+        broadcast use vstd::std_specs::hash::group_hash_axioms, nodehandle_key_model, tid_key_model;
+        let ghost ev0 = tr.ev;
+        // Process the message transaction id
+        let (dist_to_beat, timeout) = if let Some(lookup) = self.active_lookups.remove(trans_id) {
+            lookup
+        } else {
+            return self.current_lookup_status();
+        };
+
+        // Cancel the timeout (if this is not an endgame response)
+        if !self.in_endgame {
+            timer.cancel(timeout);
+        }
+
+        if let Some(token) = msg.token {
+            // Add the announce token to our list of tokens
+            self.announce_tokens.insert(*node.handle(), token);
+        }
+
+        let nodes = match socket.ip_version() {
+            IpVersion::V4 => msg.nodes_v4,
+            IpVersion::V6 => msg.nodes_v6,
+        };
+
+        let values = msg.values;
+
+        // Check if we beat the distance, get the next distance to beat
+        let (iterate_nodes, next_dist_to_beat) = vx_abs_pick_nodes(&mut self.all_sorted_nodes, &self.requested_nodes, nodes, dist_to_beat, self.target_id);
+
+        // Check if we need to iterate (not in the endgame already)
+        if !self.in_endgame {
+            // If the node gave us a closer id than its own to the target id, continue the search
+            if let Some(nodes) = iterate_nodes {
+                let filtered_nodes = nodes
+                    .iter()
+                    .filter(|p: &&(NodeHandle, bool)| -> (b: bool) { let (_, good) = p; *good })
+                    .map(|p: &(NodeHandle, bool)| -> (q: (&NodeHandle, DistanceToBeat)) { let (n, _) = p; (n, next_dist_to_beat) });
+                self.start_request_round(filtered_nodes, socket, timer, Tracked(tr))
+                    ;
+            }
+
+            // If there are not more active lookups, start the endgame
+            if self.active_lookups.is_empty() {
+                self.start_endgame_round(socket, timer, Tracked(tr));
+            }
+        }
+
+        let ghost ev1 = tr.ev;
+        let ghost vals = values@;
+        let ghost ann1 = self.announce_tokens;
+        let ghost tm1 = *timer;
+        proof { lemma_yields_quiet(ev0, ev1); }
+        for value in it: values
+            invariant it.snapshot@.remaining() == vals, 0 <= it.index@ <= vals.len(),
+                yields(tr.ev) == yields(ev0) + vals.take(it.index@ as int), no_replies(ev0, tr.ev),
+                self.announce_tokens == ann1, self.will_announce == old(self).will_announce, self.target_id == old(self).target_id, self.this_node_id == old(self).this_node_id,
+                *timer == tm1,
+        {
+            let ghost k = it.index@;
+            let ghost evb = tr.ev;
+            let vx_ret = self.tx.send(value, Tracked(tr)).unwrap_or(());
+            proof {
+                lemma_yields_push(evb, Ev::Yield(value));
+                assert(vals.take(k + 1) =~= vals.take(k as int).push(vals[k as int]));
+                assert(yields(ev0) + vals.take(k + 1) =~= (yields(ev0) + vals.take(k as int)).push(value));
+            }
+            vx_ret
+        }
+        proof { assert(vals.take(vals.len() as int) =~= vals); }
+
+        self.current_lookup_status()
+    }
+//@end
+
 //@begin fn src/action/lookup.rs impl:TableLookup completed props=C03
     pub fn completed(&self) -> (r: bool)
         ensures r == (self.active_lookups@.len() == 0),
